@@ -57,18 +57,20 @@ def ndarray_request(draw):
     Y.fix_enums(tables)
     Y.fix_last_column(tables)
     hdr = draw(header([t['name'] for t in tables]))
-    return dict(tables=tables, hdr=hdr)
+    return dict(tables=tables, hdr=hdr, byteorder=draw(st.sampled_from(['<', '<', '>'])),
+                comments=draw(st.sampled_from([None, None, 'a comment line', ['first comment', 'second # comment'], ['only one']])))
 
 
 def ndarray_body(case):
     from pydl.pydlutils.yanny import yanny, write_ndarray_to_yanny
     tables, hdr = case['tables'], case['hdr']
-    arrays = tuple(Y.build_recarray(t) for t in tables)
+    arrays = tuple(Y.build_recarray(t, case.get('byteorder', '<')) for t in tables)
     hdict = {k: v for k, v in hdr} or None
+    extra = {} if case.get('comments') is None else dict(comments=case['comments'])
     with tmpdir() as d:
         fn = os.path.join(d, 'f.par')
         par = call(write_ndarray_to_yanny, fn, arrays, structnames=tuple(t['name'] for t in tables),
-                   enums=Y.enums_dict(tables), hdr=hdict)
+                   enums=Y.enums_dict(tables), hdr=hdict, **extra)
         back = call(yanny, fn)
         for label, obj in (('returned', par), ('reread', back)):
             with judge(label):
@@ -85,6 +87,10 @@ def ndarray_classify(case):
     out = Y.classify_tables(case['tables'])
     if case['hdr']:
         out.append('has-header')
+    if case.get('byteorder') == '>':
+        out.append('big-endian-columns')
+    if isinstance(case.get('comments'), list):
+        out.append('comments-as-list')
     return out
 
 
@@ -100,14 +106,14 @@ def table_request(draw):
     t = draw(Y.table_spec(name, kinds=('i2', 'i4', 'i8', 'f4', 'f8', 'S', 'U', 'U')))
     Y.fix_last_column([t])
     hdr = draw(header([name]))
-    return dict(table=t, hdr=hdr, entry=draw(st.sampled_from(['functions', 'registry'])))
+    return dict(table=t, hdr=hdr, entry=draw(st.sampled_from(['functions', 'registry'])), byteorder=draw(st.sampled_from(['<', '<', '>'])))
 
 
 def table_body(case):
     from astropy.table import Table
     from pydl.pydlutils.yanny import yanny, write_table_yanny, read_table_yanny
     t, hdr = case['table'], case['hdr']
-    dt = Y.np_dtype(t['cols'])
+    dt = Y.np_dtype(t['cols'], byteorder=case.get('byteorder', '<'))
     a = np.zeros(len(t['rows']), dtype=dt)
     for j, c in enumerate(t['cols']):
         if t['rows']:
